@@ -1245,7 +1245,7 @@ def entStep (world : Bool) (st : EntSt) (k : KV) : Except Err EntSt :=
     if named "id" k && isNumeric value then
       .ok { st with id := (parseInt? value).getD (-1) }
     else if (lit "replace").isPrefixOf k.fname then
-      match parseInt? (last2 k.fname) with
+      match parseInt? (k.fname.drop 7) with      -- `name[7:]`: everything after "replace"
       | none => .ok { st with keys := dictSet st.keys name value }
       | some index => .ok { st with fixup := st.fixup ++ [fixOfLeaf value index] }
     else .ok { st with keys := dictSet st.keys name value }
